@@ -83,6 +83,35 @@ pub fn dispatch(op: &str, a: &[&str]) -> Option<Ans> {
             };
             (r, "n/a".into())
         }
+        // serde_ser <cont> <fmt> <payload>: every container serialises a byte string the same way
+        "serde_ser" => {
+            let (cont, fmt) = (a[0], a[1]);
+            let p = unhex(a[2]);
+            let want = encode(fmt, &p);
+            macro_rules! fixedser { ($t:ty) => { match <$t>::try_from(p.as_slice()) { Ok(v) => Some(ser(fmt, &v)), Err(_) => None } }; }
+            let got: Option<Vec<u8>> = match (cont, p.len()) {
+                ("vec", _) => Some(ser(fmt, &p)),
+                ("stack", 16) => fixedser!(StackByteArray<16>),
+                ("stack", 32) => fixedser!(StackByteArray<32>),
+                ("stack", 64) => fixedser!(StackByteArray<64>),
+                #[cfg(feature = "nightly")]
+                ("heaparr", 16) => fixedser!(dryoc::protected::HeapByteArray<16>),
+                #[cfg(feature = "nightly")]
+                ("heaparr", 32) => fixedser!(dryoc::protected::HeapByteArray<32>),
+                #[cfg(feature = "nightly")]
+                ("heaparr", 64) => fixedser!(dryoc::protected::HeapByteArray<64>),
+                #[cfg(feature = "nightly")]
+                ("heap", _) => Some(ser(fmt, &dryoc::protected::HeapBytes::from(p.as_slice()))),
+                #[cfg(feature = "nightly")]
+                ("locked", _) => { use dryoc::protected::*; HeapBytes::from_slice_into_locked(&p).ok().map(|v| ser(fmt, &v)) }
+                #[cfg(feature = "nightly")]
+                ("lockedro", _) => { use dryoc::protected::*; HeapBytes::from_slice_into_readonly_locked(&p).ok().map(|v| ser(fmt, &v)) }
+                #[cfg(feature = "nightly")]
+                ("lockedarr", 32) => { use dryoc::protected::*; HeapByteArray::<32>::from_slice_into_locked(&p).ok().map(|v| ser(fmt, &v)) }
+                _ => return Some(("n/a".into(), "n/a".into())),
+            };
+            (match got { Some(g) => ok(&g), None => "err".into() }, ok(&want))
+        }
         // tryfrom <cont> <N> <payload>: TryFrom<&[u8]> of a fixed-length container, and the key-pair slice decoders
         "tryfrom" => {
             let (cont, n) = (a[0], a[1].parse::<usize>().unwrap());
